@@ -807,7 +807,14 @@ def leaf_to_py(lib, l, rng_choice=None):
     if k == 'ints':
         enc = l.get('enc', 'int')
         if enc == 'int':
-            return list(l['v'])
+            v = list(l['v'])
+            sp = l.get('split')      # nesting INSIDE a run of integer codes: [38, 2, (255, 0, 0)], [[38, 2], [255, 0, 0]]
+            if sp and 0 < sp['at'] < len(v):
+                wrap = (lambda x: tuple(x)) if sp.get('kind') == 'tuple' else (lambda x: list(x))
+                if sp.get('both'):
+                    return [wrap(v[:sp['at']]), wrap(v[sp['at']:])]
+                return v[:sp['at']] + [wrap(v[sp['at']:])]
+            return v
         if enc == 'str':
             return [str(x) for x in l['v']]
         if enc == 'joined':
